@@ -140,6 +140,20 @@ PROPS = {
         "level_text": "Theorems (Props/C01.lean), for any number of groups, units and rows per unit: the clipped vector of a unit has L2 norm ≤ C; the released vector is the sum of the units' clipped vectors (a unit's contribution depends only on its own rows); removing one unit changes the released vector by ≤ C in L2 norm. The same definitions on Float reproduce the real l2_clipped_sums relation executed on SQLite; the real DP rewriting is executed on neighbouring databases and the observed L2 change of every noised column is compared with the C its σ was scaled by.",
         "level_note": "Trusted: Lean kernel, Mathlib; SQLite; harness shims and IR extraction. Modelled, not verified: the SQL engine's evaluation of the rendered pipeline, NULL-unit rows, float rounding.",
     },
+    "C08": {
+        "lean_modules": ["QrlewModel.Props.C08"],
+        "streams": [
+            {"name": "quote", "n_quick": 20000, "n_thorough": 1000000, "compare": True, "min_per_proc": 2000},
+            {"name": "c08x", "n_quick": 3000, "n_thorough": 100000, "compare": False, "min_per_proc": 500},
+            {"name": "sqlx", "n_quick": 20000, "n_thorough": 1500000, "compare": False, "min_per_proc": 500},
+        ],
+        "rule": "quote: strings of length 0..6 over {a, b, space, ', \", \\, `, [, ], é, %, .} (plus mostly-letter strings with one or two special characters) x {literal, identifier, output column of a Map} x {PostgreSQL, SQLite, MySQL, MS SQL, BigQuery translators}: rendered text compared with the Lean model of the escaping, and read back with the library's parser; c08x: 42 query templates covering the constructs the property lists (literals and identifiers with special characters, GROUP BY alias / expression, ORDER BY positions / aliases, LIMIT/OFFSET, wildcard, USING/NATURAL/chains of joins, IN, DISTINCT, HAVING, CTE, derived tables, set operations with ORDER BY/LIMIT, casts, unary operators) x generated database instances; sqlx: generated queries (see C14) — original text and rendered relation both executed on SQLite: same multiset of rows, same order when the query has a total ORDER BY, same column names; non-trivial = compiled and executed",
+        "trusted_base": COMMON_TRUST + ["SQLite 3.40 + harness shims as executor", "sqlparser's tokenizer as the reader of rendered literals (modelled by unesc)"],
+        "assumptions": ["ORDER BY comparisons are made only for queries whose ORDER BY is total on the result (generated that way)", "SQLite semantics stand for 'executing the query' (integer division, text comparison and NULL ordering are SQLite's)"],
+        "technique": "Lean 4 proof of the text layer (for every string without a backslash-quote or doubled quote, reading back what the renderer writes returns the string, for any quote character; kernel-checked counterexamples for the two excluded shapes) + model/implementation correspondence on rendered literals and identifiers + differential execution (original SQL vs rendered relation on SQLite)",
+        "level_text": "Theorems (Props/C08.lean) for strings of any length: unesc (esc s) = some s under the decidable guard Clean, for literals and for identifiers in any doubling quote style; bracket quoting round-trips exactly the names without ']'. The model of the escaping routine is compared with the text the five translators actually write. Query-level equivalence (name resolution, split of mixed aggregate expressions, join-column coalescing) is decided by differential execution only: original and rendered SQL run side by side on SQLite over generated queries and data.",
+        "level_note": "Trusted: Lean kernel; SQLite and shims. Modelled, not verified: the AST visitor and the Map-Reduce-Map split are not modelled in Lean; for them the check is a differential test, not a theorem.",
+    },
     "C09": {
         "lean_modules": ["QrlewModel.Props.C09"],
         "streams": [
